@@ -14,7 +14,7 @@ import est_common as ec
 
 PROP_FILE = 'theories/Properties/C05.v'
 MODEL_FILES = ['theories/Spec/WeightSpec.v', 'theories/Model/Ipw.v', 'theories/Model/IpwRun.v']
-GEN_GROUPS = ['weights']
+GEN_GROUPS = ['weights', 'siptw']
 RULE = ('IPTW (n 40-80): frames with continuous + categorical predictors (separated / near-separated draws rejected: every '
         'needed logistic fit must converge with predictions in [1e-4, 1-1e-4]), EVERY stabilized x standardize x numerator-model '
         '(constant / covariate) x bound (none / symmetric float that bites / asymmetric pair that bites / unreached) combination '
